@@ -72,6 +72,10 @@ impl FrameStore {
     }
 }
 
+#[cfg(kani)]
+#[path = "/verif/harness/rip-tui/frame_store.rs"]
+mod verif_kani;
+
 #[cfg(test)]
 mod tests {
     use super::*;
